@@ -25,7 +25,7 @@ func init() {
 		NeedRepro:  true,
 		WorkerJobs: 40,
 		DeadlineQ:  150 * time.Second,
-		DeadlineT:  25 * time.Minute,
+		DeadlineT:  45 * time.Minute,
 	})
 }
 
